@@ -160,6 +160,7 @@ def get_all_rules(rules_path=None, match_mode='first_match'):
     if rules_path:
         # Check if it's the new .rules format
         if rules_path.endswith('.rules'):
+            from .merchant_engine import MerchantParseError
             try:
                 from .merchant_engine import load_merchants_file
                 from pathlib import Path
@@ -187,8 +188,12 @@ def get_all_rules(rules_path=None, match_mode='first_match'):
                         list(rule.tags)
                     ))
                 return user_rules_with_source
+            except MerchantParseError:
+                # A .rules file that does not parse is an error the user has to see
+                # (it names the line); it is not an empty rule set or a CSV file
+                raise
             except Exception:
-                pass  # Fall through to CSV handling if .rules parsing fails
+                pass  # Fall through to CSV handling if the file cannot be read
 
         # CSV format (legacy)
         user_rules = load_merchant_rules(rules_path)
